@@ -34,6 +34,7 @@ func init() {
 			{Name: "newpackage-recover-no-err", File: f, Old: "\t\t\t\tctx.handleRecover(e, nil)\n\t\t\t\terr = ctx.errs.ToError()\n", New: "\t\t\t\tctx.handleRecover(e, nil)\n", Expect: "result/NewPackage:recovered"},
 			{Name: "maplit-error-dropped", File: "cl/expr.go", Old: "\terr = ctx.cb.MapLitEx(typ, n<<1, v)\n", New: "\tctx.cb.MapLitEx(typ, n<<1, v)\n", Expect: "result/compileMapLitEx"},
 			{Name: "typeswitch-dup-by-pointer", File: "cl/stmt.go", Old: "\t\t\tif !haserr {\n\t\t\t\tseen[T] = citem\n\t\t\t}", New: "\t\t\tif _, dup := seen[T]; !dup && !haserr {\n\t\t\t\tseen[T] = citem\n\t\t\t}", Expect: "type-identity/compileTypeSwitchStmt:seen"},
+			{Name: "blank-forin-two-blanks", File: "cl/stmt.go", Old: "\tif v.Key == nil && v.Value != nil && v.Value.Name == \"_\" {\n\t\tnames = nil // for _ <- x: nothing is defined (`for _, _ := range x` is not valid Go)\n\t}\n", New: "", Expect: "valid-go/for-blank"},
 			{Name: "errs-reset", File: f, Old: "\tfor _, load := range ctx.inits {\n\t\tload()\n\t}", New: "\tfor _, load := range ctx.inits {\n\t\tload()\n\t}\n\tif conf.Outline {\n\t\tctx.errs = nil\n\t}", Expect: "error-sink/errs-writers"},
 		},
 	})
@@ -337,6 +338,50 @@ func runC06(c *core.Check) {
 	}
 	c.Analysed("maps_keyed_by_types_Type_index_sites", nTypeMaps)
 	c.Decide(nTypeReads == 0 && nTypeMaps > 0, "type-identity", "census", 0, core.Sprintf("%d index sites on maps keyed by types.Type, all stores; identity is decided by ranging and types.Identical", nTypeMaps), "maps keyed by types.Type are read by key (see the sites above) or no such map was found (the census lost its subject)")
+
+	// ---------- (2c) constructs whose straightforward lowering is not valid Go
+	// `for _ <- x`: both range variables blank must become `for range x` (`for _, _ := range x` declares nothing new)
+	if fp := prog.FuncDecl("./cl", "compileForPhraseStmt"); fp != nil {
+		ok := false
+		ast.Inspect(fp.Body, func(n ast.Node) bool {
+			is, isIf := n.(*ast.IfStmt)
+			if !isIf {
+				return true
+			}
+			cond := nows(core.ExprStr(is.Cond))
+			if strings.Contains(cond, `v.Key==nil`) && strings.Contains(cond, `v.Value.Name=="_"`) {
+				for _, st := range is.Body.List {
+					if nows(stmtStr(st)) == "names=nil" {
+						ok = true
+					}
+				}
+			}
+			return true
+		})
+		c.Decide(ok, "valid-go", "for-blank", fp.Pos(), "`for _ <- x` defines no range variables", "cl.compileForPhraseStmt passes the names `_`, `_` to ForRange for `for _ <- x`: the generated `for _, _ := range x` is rejected by Go (no new variables on left side of :=) although the compiler reported success")
+	} else {
+		c.Bad("anchor", "cl.compileForPhraseStmt", 0, "not found")
+	}
+	// `expr?` as a statement: the values it yields must be discarded explicitly
+	if cs := prog.FuncDecl("./cl", "compileStmt"); cs != nil {
+		ok := false
+		ast.Inspect(cs.Body, func(n ast.Node) bool {
+			cc, isCC := n.(*ast.CaseClause)
+			if !isCC || len(cc.List) != 1 || core.ExprStr(cc.List[0]) != "*ast.ExprStmt" {
+				return true
+			}
+			ast.Inspect(&ast.BlockStmt{List: cc.Body}, func(m ast.Node) bool {
+				if call, isCall := m.(*ast.CallExpr); isCall {
+					if fn, isFn := calleeObj(info, call).(*types.Func); isFn && fn.Name() == "discardErrWrapValues" {
+						ok = true
+					}
+				}
+				return true
+			})
+			return true
+		})
+		c.Decide(ok, "valid-go", "exprstmt-errwrap", cs.Pos(), "the values of `expr?` used as a statement are assigned to blanks", "cl.compileStmt no longer discards the values an `expr?` statement leaves on the operand stack: the generated code contains a lone `_autoGo_1` expression statement, which Go rejects, although the compiler reported success")
+	}
 
 	// ---------- (3) the sink and the result
 	pkgCtx := prog.NamedType("./cl", "pkgCtx")
